@@ -46,17 +46,20 @@ RECURSIVE Perms(_)
 Perms(S) == IF S = {} THEN {<<>>} ELSE UNION {{<<x>> \o p : p \in Perms(S \ {x})} : x \in S}
 ReqSeqs(S) == UNION {Perms(T) : T \in (SUBSET S) \ {{}}}
 
-Next ==
-  \/ /\ phase = "build"
-     /\ \E n \in Names :
-          \/ \E k \in 0..MaxParts : \E ps \in PartsOf(k) : AddTopic(n, 0, ps)
-          \/ \E te \in TopicErrs : AddTopic(n, te, <<>>)
-  \/ /\ phase = "build"
-     /\ \/ \E kind \in {"metadata", "nr_metadata"} :
-             \/ Choose(kind, "all", <<>>, <<>>)
-             \/ \E ns \in ReqSeqs(Names \cup {UnknownName}) : Choose(kind, "names", ns, <<>>)
-             \/ \E is \in ReqSeqs({IdOf(n) : n \in Names} \cup {UnknownId}) : Choose(kind, "ids", <<>>, is)
-        \/ \E kind \in {"coordinator", "nr_coordinator"} : Choose(kind, "all", <<>>, <<>>)
+\* one named operator per action so that TLC's coverage reports them by name
+AddAny ==
+  /\ phase = "build"
+  /\ \E n \in Names :
+       \/ \E k \in 0..MaxParts : \E ps \in PartsOf(k) : AddTopic(n, 0, ps)
+       \/ \E te \in TopicErrs : AddTopic(n, te, <<>>)
+ChooseAny ==
+  /\ phase = "build"
+  /\ \/ \E kind \in {"metadata", "nr_metadata"} :
+          \/ Choose(kind, "all", <<>>, <<>>)
+          \/ \E ns \in ReqSeqs(Names \cup {UnknownName}) : Choose(kind, "names", ns, <<>>)
+          \/ \E is \in ReqSeqs({IdOf(n) : n \in Names} \cup {UnknownId}) : Choose(kind, "ids", <<>>, is)
+     \/ \E kind \in {"coordinator", "nr_coordinator"} : Choose(kind, "all", <<>>, <<>>)
+Next == AddAny \/ ChooseAny
 Spec == Init /\ [][Next]_vars
 
 \* ---------------- the specification of the functions ----------------
